@@ -2,6 +2,7 @@ import RainModel.Lemmas.LoopWeak
 import RainModel.Lemmas.LoopStart
 import RainModel.Lemmas.LoopVerify2
 import RainModel.Lemmas.LoopWInvDec
+import RainModel.Lemmas.LoopVerifyFlag
 /-!
 C04 — lifecycle safety, loop level (M-LOOP).  Two inductive invariants of the event loop, proved for every
 event with arbitrary parameters, every state satisfying them, and every admissible choice of the picker:
@@ -13,9 +14,10 @@ event with arbitrary parameters, every state satisfying them, and every admissib
 and reachability statements about single commands: `stop_reaches_stopped` (with `stop_reaches_stopped_or_hangs`
 and `waitstop_reaches_stopped` for stub trackers that do not answer the `stopped` event), `start_not_dropped`
 (a start is never dropped, in particular not while the torrent is stopping: fix C04-F3), `verify_ends_stopped`
-(with the proved counterexample `verify_without_files_starts_download` for the case the property text asks
-about), and `no_panic_partial` (handler by handler; the full inductive statement is `no_panic_full`, not
-proved — see notes/loop-proofs.md).  Tie to the code: suite `lifecycle` (and `loop-dl`, `loop-magnet`).
+(since the fix of finding C04-F4 also when none of the torrent's files exists: `verify_without_files_ends_stopped`,
+the case the property text asks about; `no_stale_verify_flag`: a pending verification request is never
+forgotten while the torrent runs normally), and `no_panic_partial` (handler by handler; the inductive
+statement is `no_panic_full_partial` — see notes/loop-proofs.md).  Tie to the code: suite `lifecycle` (and `loop-dl`, `loop-magnet`).
 -/
 namespace Rain.Props.C04
 open Rain.Loop
@@ -109,58 +111,70 @@ theorem start_while_stopping (m : M) (l : Life m.1) (hs : m.1.stopAnn = true) :
     (start m).1.doVerify = m.1.doVerify ∧ (start m).1.bf = (if m.1.doVerify then none else m.1.bf) :=
   Rain.Loop.start_while_stopping m l hs
 
-/-- **verify_ends_stopped.** The verify command on a stopped torrent (metadata known, at least one of its
-files on disk, storage not failing, trackers answering): within the op the files are verified and the
-torrent is `Stopped` again with the verify flag cleared. -/
+/-- **verify_ends_stopped.** The verify command on a stopped torrent (metadata known, storage not failing,
+trackers answering): within the op the files are opened and — if at least one of them existed — verified, and
+the torrent is `Stopped` again with the verify flag cleared.  (Before the fix of finding C04-F4 this needed
+the hypothesis that some file exists.) -/
 theorem verify_ends_stopped (s : St) (p : Parked) (kn : Nat → Bool) (l : Life s) (he : s.errC = false)
-    (hi : s.info = true) (hp : s.panicked = none) (hf : s.failOpen = false) (hex : SomeFileExists s)
+    (hi : s.info = true) (hp : s.panicked = none) (hf : s.failOpen = false)
     (hh : s.stopHang = false) :
     (step s p kn .verify).1.st.status = .stopped ∧ (step s p kn .verify).1.st.doVerify = false :=
-  Rain.Loop.verify_ends_stopped s p kn l he hi hp hf hex hh
+  Rain.Loop.verify_ends_stopped s p kn l he hi hp hf hh
+
+/-- **verify_without_files_ends_stopped** (fix for finding C04-F4; the case the property text names).  The
+verify command on a stopped torrent of which **no** data file exists (metadata known, storage not failing,
+trackers answering, not panicked): the files are created, there is nothing to verify, and the op ends
+`Stopped` with the verify flag cleared — the torrent does not start downloading. -/
+theorem verify_without_files_ends_stopped (s : St) (p : Parked) (kn : Nat → Bool) (l : Life s) (he : s.errC = false)
+    (hi : s.info = true) (hp : s.panicked = none) (hf : s.failOpen = false) (_hnf : ¬ SomeFileExists s)
+    (hh : s.stopHang = false) :
+    (step s p kn .verify).1.st.status = .stopped ∧ (step s p kn .verify).1.st.doVerify = false :=
+  Rain.Loop.verify_ends_stopped s p kn l he hi hp hf hh
 
 /-- The same without the assumption about the trackers: verified, flag cleared, `Stopped` — or `Stopping`
 with the stop announcer waiting for a tracker that does not answer. -/
 theorem verify_ends_stopped_or_hangs (s : St) (p : Parked) (kn : Nat → Bool) (l : Life s) (he : s.errC = false)
-    (hi : s.info = true) (hp : s.panicked = none) (hf : s.failOpen = false) (hex : SomeFileExists s) :
+    (hi : s.info = true) (hp : s.panicked = none) (hf : s.failOpen = false) :
     (step s p kn .verify).1.st.doVerify = false ∧
     ((step s p kn .verify).1.st.status = .stopped ∨
       (s.stopHang = true ∧ (step s p kn .verify).1.st.status = .stopping ∧
         (step s p kn .verify).1.st.stopHang = true)) :=
-  Rain.Loop.verify_ends_stopped_or_hangs s p kn l he hi hp hf hex
+  Rain.Loop.verify_ends_stopped_or_hangs s p kn l he hi hp hf
 
 /-- **verify_from_running_ends_stopped.** The verify command on a torrent that is *not* stopped — any other
 status: downloading, seeding, allocating or verifying behind a gate, fetching nothing but already stopping —
-with the metadata known, at least one of its files on disk, the storage not failing and every tracker
-answering: the command stops the torrent, the completed stop restarts it without its bitfield
-(`handleStopped` sees `doVerify`), the files are re-opened and verified, and the op ends `Stopped` with the
-verify flag cleared.  (`verify_running_magnet_not_stopped` below: false without the metadata.) -/
+with the metadata known, the storage not failing and every tracker answering: the command stops the torrent,
+the completed stop restarts it without its bitfield (`handleStopped` sees `doVerify`), the files are re-opened
+and verified (if none existed the allocation result ends the verification: fix C04-F4, so the hypothesis
+"some file exists" is gone), and the op ends `Stopped` with the verify flag cleared.
+(`verify_running_magnet_not_stopped` below: false without the metadata.) -/
 theorem verify_from_running_ends_stopped (s : St) (p : Parked) (kn : Nat → Bool) (l : Life s) (he : s.errC = true)
-    (hi : s.info = true) (hp : s.panicked = none) (hf : s.failOpen = false) (hex : SomeFileExists s)
+    (hi : s.info = true) (hp : s.panicked = none) (hf : s.failOpen = false)
     (hh : s.stopHang = false) :
     (step s p kn .verify).1.st.status = .stopped ∧ (step s p kn .verify).1.st.doVerify = false :=
-  Rain.Loop.verify_from_running_ends_stopped s p kn l he hi hp hf hex hh
+  Rain.Loop.verify_from_running_ends_stopped s p kn l he hi hp hf hh
 
 /-- The same without the assumption about the trackers: `Stopped` with the flag cleared — or a tracker does
 not answer the `stopped` event and the torrent is `Stopping` with the verify still pending. -/
 theorem verify_from_running_ends_stopped_or_hangs (s : St) (p : Parked) (kn : Nat → Bool) (l : Life s)
-    (he : s.errC = true) (hi : s.info = true) (hp : s.panicked = none) (hf : s.failOpen = false)
-    (hex : SomeFileExists s) :
+    (he : s.errC = true) (hi : s.info = true) (hp : s.panicked = none) (hf : s.failOpen = false) :
     ((step s p kn .verify).1.st.status = .stopped ∧ (step s p kn .verify).1.st.doVerify = false) ∨
     (s.stopHang = true ∧ (step s p kn .verify).1.st.status = .stopping ∧
       (step s p kn .verify).1.st.stopHang = true ∧ (step s p kn .verify).1.st.doVerify = true) :=
-  Rain.Loop.verify_from_running_ends_stopped_or_hangs s p kn l he hi hp hf hex
+  Rain.Loop.verify_from_running_ends_stopped_or_hangs s p kn l he hi hp hf
 
 /-- … and the pending verify of the second case runs to the end when the stop timeout passes
 (`Op.waitstop`), the storage gates being released: `Stopped`, flag cleared. -/
 theorem pending_verify_waitstop (s : St) (p : Parked) (kn : Nat → Bool) (l : Life s)
     (hs : s.stopAnn = true) (hdv : s.doVerify = true) (hi : s.info = true) (hp : s.panicked = none)
-    (hf : s.failOpen = false) (hex : SomeFileExists s) (hgo : s.gateOpen = false) (hgr : s.gateRead = false) :
+    (hf : s.failOpen = false) (hgo : s.gateOpen = false) (hgr : s.gateRead = false) :
     (step s p kn .waitstop).1.st.status = .stopped ∧ (step s p kn .waitstop).1.st.doVerify = false :=
-  Rain.Loop.pending_verify_waitstop s p kn l hs hdv hi hp hf hex hgo hgr
+  Rain.Loop.pending_verify_waitstop s p kn l hs hdv hi hp hf hgo hgr
 
 /-- Counterexample to `verify_from_running_ends_stopped` without `info` (a magnet torrent that is still
 fetching its metadata): the verify stops it, the pending verify restarts it, and it is fetching metadata
-again with the flag still set. -/
+again with the flag still set.  The request is not lost: when the metadata arrives the allocation result
+finds the flag (`no_stale_verify_flag` and the examples after it). -/
 theorem verify_running_magnet_not_stopped :
     let c : Cfg := { pl := 16384, plens := [16384], blocks := [[(0, 16384)]], flens := [16384], fpads := [false], fnames := ["t"] }
     let s : St := { cfg := c, info := false, infoAtAdd := false, errC := true, acceptor := true,
@@ -168,14 +182,33 @@ theorem verify_running_magnet_not_stopped :
     (step s none (fun _ => false) .verify).1.st.status = .dlmeta ∧
     (step s none (fun _ => false) .verify).1.st.doVerify = true := by decide
 
-/-- **verify_without_files_starts_download** (counterexample to `verify_ends_stopped` without the
-hypothesis that some file exists; the property text names it): verify on a stopped torrent with no data
-starts downloading, and the verify flag stays set — the next `stop` is turned into a re-verification. -/
-theorem verify_without_files_starts_download :
-    let c : Cfg := { pl := 16384, plens := [16384], blocks := [[(0, 16384)]], flens := [16384], fpads := [false], fnames := ["t"] }
-    let s : St := { cfg := c, fileExists := [false], known := [false], bad := c.dataSects }
-    (step s none (fun _ => false) .verify).1.st.status = .downloading ∧
-    (step s none (fun _ => false) .verify).1.st.doVerify = true := by decide
+/-- **no_stale_verify_flag_step.**  The invariant behind `no_stale_verify_flag`, for one event from any state
+(any op, any parameters, any parked message): `DV s` — while `doVerify` is set the torrent is stopping, or it
+has no bitfield and its allocator or its verifier is running, or it is still fetching its metadata. -/
+theorem no_stale_verify_flag_step (s : St) (p : Parked) (kn : Nat → Bool) (op : Op) (h : DV s) :
+    DV (step s p kn op).1.st := step_dv s p kn op h
+
+/-- **no_stale_verify_flag** (after the fix of finding C04-F4).  Along every history from a freshly added
+torrent without a pending verification — any events with any parameters, any gates, mutations of the files,
+verify commands at any time, magnet links included; the implementation's piece choices accepted by
+`reconcile` (`drunAdmissible`, as in `life_invariant_run`) — a set `doVerify` means that the verification is
+on its way: the status is `Stopping`, `Allocating`, `Verifying` or `DownloadingMetadata`, in particular never
+`Downloading` and never `Seeding`: a verification request is never forgotten while the torrent runs normally.
+(Before the fix: false, `verify` on a stopped torrent without files ended `Downloading` with the flag set.) -/
+theorem no_stale_verify_flag (s0 : St) (h0 : InitLike s0) (hv : s0.doVerify = false) (evs : List Ev)
+    (ha : drunAdmissible (s0, none) evs) (hd : (drun (s0, none) evs).1.doVerify = true) :
+    ((drun (s0, none) evs).1.status ≠ .downloading ∧ (drun (s0, none) evs).1.status ≠ .seeding) ∧
+    ((drun (s0, none) evs).1.status = .stopping ∨ (drun (s0, none) evs).1.status = .allocating ∨
+      (drun (s0, none) evs).1.status = .verifying ∨ (drun (s0, none) evs).1.status = .dlmeta) := by
+  have h := (drun_dv evs (s0, none) (DV.of_false hv)).status (drun_life evs (s0, none) h0.life ha) hd
+  refine ⟨?_, h⟩
+  rcases h with h | h | h | h <;> rw [h] <;> exact ⟨by decide, by decide⟩
+
+/-- The `Downloading` half needs no hypothesis on the implementation's choices at all (`Seeding` needs the
+lifecycle invariant: no metadata ⇒ not completed). -/
+theorem no_stale_verify_flag_downloading (s0 : St) (hv : s0.doVerify = false) (evs : List Ev)
+    (hd : (drun (s0, none) evs).1.doVerify = true) : (drun (s0, none) evs).1.status ≠ .downloading :=
+  (drun_dv evs (s0, none) (DV.of_false hv)).not_downloading hd
 
 /-- **no_panic_partial.** Handler by handler: under the stated clause of the loop invariant the handler
 reaches none of Go's panic sites.  (`start` — also while stopping —, `handleStopped`: no worker left over; `checkCompletion`: a
@@ -268,15 +301,30 @@ example : (drun (s1, none) evs1).1.status = .seeding ∧ (drun (s1, none) evs1).
 example : (drun (s1, none) (evs1 ++ [⟨.stop, kn [1], [], []⟩])).1.status = .stopped ∧
     (drun (s1, none) (evs1 ++ [⟨.stop, kn [1], [], []⟩])).1.peers = [] := by decide
 
+/-! The case the property text names, on the concrete torrent (one file, nothing on disk): the verify command
+ends `Stopped`, flag cleared, the file created, a fresh empty bitfield which is also the resume record.
+Before the fix of finding C04-F4 this run ended `Downloading ∧ doVerify = true` (the theorem
+`verify_without_files_starts_download`, now false and replaced by `verify_without_files_ends_stopped`). -/
+example : (step s1 none (fun _ => false) .verify).1.st.status = .stopped ∧
+    (step s1 none (fun _ => false) .verify).1.st.doVerify = false ∧
+    (step s1 none (fun _ => false) .verify).1.st.bf = some [false] ∧
+    (step s1 none (fun _ => false) .verify).1.st.persisted = some [false] ∧
+    (step s1 none (fun _ => false) .verify).1.st.fileExists = [true] ∧ ¬ SomeFileExists s1 := by
+  refine ⟨by decide, by decide, by decide, by decide, by decide, ?_⟩
+  unfold SomeFileExists; decide
+
 /-! Non-vacuity of `verify_from_running_ends_stopped`: verify on the seeding torrent — stopped, re-verified
 (the bitfield is the verifier's), flag cleared; with a hanging tracker: `Stopping`, verify pending, and the
 stop timeout completes it. -/
 example : (drun (s1, none) (evs1 ++ [⟨.verify, kn [1], [], []⟩])).1.status = .stopped ∧
     (drun (s1, none) (evs1 ++ [⟨.verify, kn [1], [], []⟩])).1.doVerify = false ∧
     (drun (s1, none) (evs1 ++ [⟨.verify, kn [1], [], []⟩])).1.bf = some [true] ∧
-    (drun (s1, none) evs1).1.errC = true ∧ SomeFileExists (drun (s1, none) evs1).1 := by
-  refine ⟨by decide, by decide, by decide, by decide, ?_⟩
-  unfold SomeFileExists; decide
+    (drun (s1, none) evs1).1.errC = true := by decide
+/-- … and on a torrent that is `Downloading` with nothing written yet (its file exists, the allocator created
+it; the verifier finds no good piece): `Stopped`, flag cleared. -/
+example : (drun (s1, none) (evs1.take 3 ++ [⟨.verify, kn [1], [], []⟩])).1.status = .stopped ∧
+    (drun (s1, none) (evs1.take 3 ++ [⟨.verify, kn [1], [], []⟩])).1.doVerify = false ∧
+    (drun (s1, none) (evs1.take 3)).1.status = .downloading := by decide
 example : (drun ({ s1 with stopHang := true }, none) (evs1 ++ [⟨.verify, kn [1], [], []⟩])).1.status = .stopping ∧
     (drun ({ s1 with stopHang := true }, none) (evs1 ++ [⟨.verify, kn [1], [], []⟩])).1.doVerify = true := by decide
 example : (drun ({ s1 with stopHang := true }, none)
@@ -378,6 +426,30 @@ example : (drun (s1, none) (evs1 ++ [⟨.stop, kn [1], [], []⟩])).1.panicked =
 /-- a magnet link whose metadata arrives (W1 without the inadmissible choice) -/
 example : drunAdmissible (sW1, none) (evsW1.take 5 ++ [⟨.gate .open false, kn [1], [], []⟩]) ∧
     (drun (sW1, none) (evsW1.take 5 ++ [⟨.gate .open false, kn [1], [], []⟩])).1.status = .downloading := by decide
+
+/-! Non-vacuity of `no_stale_verify_flag`, the magnet case: `verify` on a torrent that is fetching its
+metadata leaves the flag set (`DownloadingMetadata`); a peer delivers the metadata; the allocation finds no
+file: fresh bitfield, flag cleared, `Stopped` (before the fix of C04-F4: `Downloading` with the flag set).
+With a file on disk the verifier runs (held by the read gate: `Verifying`, flag still set) and ends the
+same way. -/
+private def evsM : List Ev := [
+  ⟨.start, kn [], [], []⟩,
+  ⟨.verify, kn [], [], []⟩,
+  ⟨.peer 1 "10.0.0.2" true true false, kn [], [], []⟩,
+  ⟨.exths 1 true 100 false, kn [1], [], [1]⟩,
+  ⟨.metadata 1 0 100 true, kn [1], [], []⟩]
+example : InitLike sW1 ∧ sW1.doVerify = false ∧ drunAdmissible (sW1, none) evsM ∧
+    (drun (sW1, none) (evsM.take 4)).1.doVerify = true ∧ (drun (sW1, none) (evsM.take 4)).1.status = .dlmeta ∧
+    (drun (sW1, none) evsM).1.status = .stopped ∧ (drun (sW1, none) evsM).1.doVerify = false ∧
+    (drun (sW1, none) evsM).1.bf = some [false] ∧ (drun (sW1, none) evsM).1.info = true :=
+  ⟨by apply initLike_of <;> decide, by decide, by decide, by decide, by decide, by decide, by decide, by decide,
+    by decide⟩
+private def sW1e : St := { sW1 with fileExists := [true], known := [true] }
+private def evsMg : List Ev := evsM.take 4 ++ [⟨.gate .read true, kn [1], [], [1]⟩, ⟨.metadata 1 0 100 true, kn [1], [], []⟩]
+example : (drun (sW1e, none) evsMg).1.status = .verifying ∧ (drun (sW1e, none) evsMg).1.doVerify = true ∧
+    (drun (sW1e, none) (evsMg ++ [⟨.gate .read false, kn [1], [], []⟩])).1.status = .stopped ∧
+    (drun (sW1e, none) (evsMg ++ [⟨.gate .read false, kn [1], [], []⟩])).1.doVerify = false ∧
+    (drun (sW1e, none) (evsMg ++ [⟨.gate .read false, kn [1], [], []⟩])).1.bf = some [false] := by decide
 end Witnesses
 
 end Rain.Props.C04
